@@ -550,6 +550,46 @@ impl<'a, 'b> BodyV<'a, 'b> {
         self.calls_seen.push(key);
     }
 
+    /// R23: a bare datatype constructor (`Ok`, `Err`, `Some`) passed as a function value becomes
+    /// the closure `|c| Ok(c)` (Verus does not support constructors as function values); it
+    /// counts as the next closure of its callee for contract anchoring
+    fn ctor_as_closure(&mut self, arg: &Expr, callee: &str) -> bool {
+        if let Expr::Path(ep) = arg {
+            if let Some(id) = ep.path.get_ident() {
+                let n = id.to_string();
+                if n == "Ok" || n == "Err" || n == "Some" {
+                    self.closure_no += 1;
+                    let cnt = self.closure_counts.entry(callee.to_string()).or_insert(0);
+                    *cnt += 1;
+                    let key = format!("{}#{}", callee, *cnt);
+                    let mut spec = None;
+                    if let Some(u) = self.unit.as_ref() {
+                        for (k, v) in &u.closures_by_text {
+                            if *k == key {
+                                spec = Some(v.clone());
+                            }
+                        }
+                    }
+                    let r = range_of(arg);
+                    let txt = match spec {
+                        Some(spec) => {
+                            self.used_text_closures.insert(key.clone());
+                            let types: Vec<String> = spec.get("types").and_then(|x| x.as_array()).map(|a| a.iter().map(|x| x.as_str().unwrap_or("").to_string()).collect()).unwrap_or_default();
+                            let ty = types.first().cloned().unwrap_or_else(|| "_".to_string());
+                            let ret = jstr(&spec, "ret");
+                            let contract = jstr(&spec, "contract").replace("$1", "__c");
+                            format!("|__c: {ty}| -> ({ret})\n{contract}\n{{ {n}(__c) }}")
+                        }
+                        None => format!("|__c| {n}(__c)"),
+                    };
+                    self.fc.edit(r.0, r.1, txt, "R23.ctor_closure");
+                    return true;
+                }
+            }
+        }
+        false
+    }
+
     fn visit_call_parts(&mut self, e: &ExprCall) {
         self.visit_expr(&e.func);
         let name = match &*e.func {
@@ -844,6 +884,9 @@ impl<'a, 'b, 'ast> Visit<'ast> for BodyV<'a, 'b> {
             self.in_opaque_ctx += 1;
         }
         for a in e.args.iter() {
+            if self.ctor_as_closure(a, &name) {
+                continue;
+            }
             let is_closure = matches!(a, Expr::Closure(_));
             if is_closure {
                 self.closure_ctx.push(name.clone());
